@@ -20,7 +20,8 @@ VERIF = os.path.dirname(os.path.dirname(os.path.abspath(__file__)))
 CONTRACTS = os.path.join(VERIF, 'contracts')
 UNITS_DIR = os.path.join(CONTRACTS, 'units')
 GOLDEN_DIR = os.path.join(CONTRACTS, 'golden')
-BUILD = os.path.join(VERIF, 'build')
+OUT = os.environ.get('VERIF_OUT', VERIF)
+BUILD = os.path.join(OUT, 'build', str(os.getpid()))
 REPO = os.environ.get('VERIF_REPO', '/repo')
 
 
@@ -298,7 +299,6 @@ def lint_unit(unit, repo=None):
             continue
         ann = [t for t, _ in r.lines]
         a = embed(g['lines'], ann)
-        b = embed(g['lines'], ann, rightmost=True)
         if a is None:
             problems.append('%s: annotated region is not golden + insertions' % r.key)
             # find first golden line that is missing
@@ -311,10 +311,30 @@ def lint_unit(unit, repo=None):
                     break
                 j += 1
             continue
-        if a != b:
-            for x, y in zip(a, b):
-                if x != y:
-                    problems.append('%s: ambiguous code/contract line %r (unit line offsets %d vs %d): mark the contract copy with //@'
-                                    % (r.key, ann[x], x, y))
-                    break
+        # the leftmost embedding is the intended one iff every group of inserted lines is brace-balanced
+        # (a contract `}` mistaken for a code line would leave its group with an unmatched `{`)
+        code_at = set(a)
+        depth = 0
+        start = None
+        for j, t in enumerate(ann):
+            if j in code_at:
+                if depth != 0:
+                    problems.append('%s: inserted lines starting at region offset %d are not brace-balanced before code line %r; '
+                                    'mark the ambiguous contract line with //@' % (r.key, start, t))
+                    depth = 0
+                start = None
+                continue
+            if start is None:
+                start = j
+            from . import rtok
+            try:
+                for tk in rtok.tokenize(t):
+                    if tk[0] == 'p' and tk[1] in '{':
+                        depth += 1
+                    elif tk[0] == 'p' and tk[1] in '}':
+                        depth -= 1
+            except rtok.LexError:
+                pass
+        if depth != 0:
+            problems.append('%s: trailing inserted lines are not brace-balanced' % r.key)
     return problems
